@@ -71,6 +71,26 @@ CHECKS = {
             "Crash-point enumeration: all write-level prefixes after each flush point of each generated history (spans > 120 writes sampled), plus the flush-barrier condition (a device flush follows the last write of the flush call).",
             "crash model: prefix loss of device writes with flush barriers; no torn/reordered sectors; trusted: refdec, the device log, proptest",
             "DESIGN.md 5 C14"),
+    "C15": ("exploration",
+            "bounded-exhaustive + property-based input generation: every ASCII character, every BMP scalar in three positions, byte lengths 0..300, astral sample and proptest-generated strings through create_file/create_dir/rename on a fresh volume each; oracle = independent acceptance predicate, byte-identical image after rejection, unit-for-unit listing, fold-equality lookups incl. alias and near-misses",
+            "Complete enumeration of the BMP (first/middle/last position) and of byte lengths 0..300 (blocks marked exhaustive) plus generated strings; folding oracle is std's char::to_uppercase, aliases are read by refdec.",
+            "trusted: the acceptance predicate transcribed from the documented character set (U+FFFF excluded: padding value), refdec, std case mapping, proptest; '.'/'..' and '/' outside the domain",
+            "DESIGN.md 5 C15"),
+    "C16": ("exploration",
+            "invariant checking over generated directory populations built to collide on both alias forms (same 6-char prefix; same 2-char prefix + same 16-bit hash found by search), with deletions; refdec checks uniqueness, 8.3 legality and slot checksums on the raw image after every step; device-call budget as termination oracle",
+            "Generated-input search: scripted populations of 60..600 colliding names and proptest-generated populations (3000 quick / 80000 thorough) on FAT12/16/32.",
+            "trusted: refdec's short-name legality table and checksum, proptest",
+            "DESIGN.md 5 C16"),
+    "C17": ("exploration",
+            "bounded-exhaustive + random input generation over raw directory regions: all order/flag/checksum patterns of runs of 1..3 long-name slots x followers, every value of every byte of each slot of a valid run, proptest-generated slot soup; oracle = no panic / budget overrun, names <= 255 units, listing equals refdec's backwards run parser under at least one reading of the undefined bits",
+            "Enumeration (blocks marked exhaustive where complete) plus generated soup on a fixed FAT12 root and a two-cluster chained directory; the fixed-buffer build is compared in C19.",
+            "trusted: refdec's backwards long-name parser (formulation independent of the library's forward state machine), proptest",
+            "DESIGN.md 5 C17"),
+    "C18": ("exploration",
+            "bounded-exhaustive round trip (all 47,616 dates; all 8.64 M times of day in the thorough tier) through set_*/drop/re-list/remount/raw words, plus model-based stamping checks on proptest-generated histories under a jumping harness clock",
+            "Complete enumeration of the date domain in both tiers and of the 10 ms time-of-day domain in the thorough tier (quick: boundary grid + 200k random); stamping rules checked on generated histories with the access-date option on and off.",
+            "trusted: own transcription of the DOS date/time bit layout (Ts::from_words), the stamping model, proptest; directories written into are exempt",
+            "DESIGN.md 5 C18"),
 }
 
 PENDING_REASON = "check under construction in this session; not claimed yet (technique applies, see DESIGN.md)"
